@@ -122,7 +122,9 @@ def gen(rng):
     procs.append({'argv': argv, 'env': env, 'cwd': cwd, 'uid': uid, 'stdin': '?', 'advance': rng.choice([0, 5, 86400])})
     failed_first = rng.random() < 0.2
     return {
-        'world': {'mounts': L['mounts'], 'steps': steps},
+        # (6 % of the worlds with volumes: one of them is under systemd / autofs automount control - the mount table names its
+        # mount point twice, the autofs placeholder first)
+        'world': dict({'mounts': L['mounts'], 'steps': steps}, **({'automount': [rng.choice(L['vols'])]} if L['vols'] and rng.random() < 0.06 else {})),
         'procs': procs,
         'dirsalt': rng.randrange(1 << 30),
         'note': {'scope': scope, 'kind': kind, 'xdev': xdev},
